@@ -29,7 +29,7 @@ ASSUMPTIONS = [
 ]
 
 SIZES = {"none": None, "small": (8, 8), "just_below": (512, 511), "at_threshold": (512, 512), "just_above": (512, 513), "large": (700, 600),
-         "two_large": (600, 600), "int8_large": (1100, 1000)}
+         "two_large": (600, 600), "int8_large": (1100, 1000), "three_large_odd": (550, 550), "three_large_mixed": (520, 520)}
 PATHS = ["m.onnx", "sub/m.onnx", "other.onnx", "sub/deeper/m2.onnx"]
 
 
@@ -43,6 +43,14 @@ def make_fn(size_cls, salt):
         w = np.random.RandomState(salt).randint(-100, 100, size=(r, c)).astype(np.int8)
         return (lambda x: x @ jnp.asarray(w).astype(jnp.float32)), (2, r)
     w = np.random.RandomState(salt).randn(r, c).astype(np.float32)
+    if size_cls == "three_large_odd":
+        ws = [np.random.RandomState(salt + i).randn(r, c).astype(np.float32) * 0.05 for i in range(3)]
+        return (lambda x: ((x @ ws[0]) @ ws[1]) @ ws[2]), (2, r)
+    if size_cls == "three_large_mixed":
+        w1 = np.random.RandomState(salt).randn(520, 520).astype(np.float32) * 0.05
+        w2 = np.random.RandomState(salt + 1).randn(520, 600).astype(np.float32) * 0.05
+        w3 = np.random.RandomState(salt + 2).randn(600, 600).astype(np.float32) * 0.05
+        return (lambda x: ((x @ w1) @ w2) @ w3), (2, 520)
     if size_cls == "two_large":
         w2 = np.random.RandomState(salt + 100).randn(c, r).astype(np.float32)
         return (lambda x: (x @ w) @ w2), (2, r)
